@@ -158,12 +158,17 @@ type refCase struct {
 	// is closed before the call, F = a merge whose destination cannot be created, K = merges
 	// cancelled at every one of their progress reports
 	Ops string `json:"ops"`
+	// Empty: the file holds a segment without documents (a persisted empty batch)
+	Empty bool `json:"empty,omitempty"`
 }
 
 // runRefSequence executes one balanced sequence on a freshly opened segment.
 func runRefSequence(c refCase, full bool) *Violation {
 	const prop = "C20"
 	b := refBatch()
+	if c.Empty {
+		b = &spec.BatchSpec{}
+	}
 	want := spec.Expect(b)
 	seg, _, err := drive.Build(b, 0)
 	if err != nil {
@@ -191,7 +196,7 @@ func runRefSequence(c refCase, full bool) *Violation {
 	count := 1
 	for i, op := range c.Ops {
 		read := lightRead
-		if full || i == 0 || i == len(c.Ops)-1 {
+		if full || i == 0 || i == len(c.Ops)-1 || c.Empty {
 			read = fullRead
 		}
 		if m := read(o, want); m != "" {
@@ -329,9 +334,20 @@ func TestC20Enum(t *testing.T) {
 			fail, failSeq = v, s
 		}
 	}
+	// the same for a file without documents
+	failEmpty := false
+	for _, s := range []string{"C", "D", "ADC", "AADDC", "ACD", "AmDC"} {
+		if fail != nil {
+			break
+		}
+		col.CaseHash(stats.HashJSON("empty:"+s), true, []string{"zero-document-file"}, func() any { return "empty file: " + s })
+		if v := runRefSequence(refCase{Ops: s, Empty: true}, true); v != nil {
+			fail, failSeq, failEmpty = v, s, true
+		}
+	}
 	if fail != nil {
 		col.Freeze()
-		path := writeReplay(prop, "enum", refCase{Ops: failSeq}, fail)
+		path := writeReplay(prop, "enum", refCase{Ops: failSeq, Empty: failEmpty}, fail)
 		fmt.Printf("VIOLATION-DETAIL property=%s stage=enum signature=%s replay=%s\n%s\n", prop, fail.Signature, path, fail.Message)
 		t.FailNow()
 	}
